@@ -287,9 +287,27 @@ func main() {
 		{"multi-line-deprecation", "message ZqM {\n    [deprecated(\"line one \nline two\")]\n    1 -> int32 x;\n    2 -> string s;\n}\n"},
 		{"multi-line-comment-in-union-branch", "union ZqU {\n    1 -> struct ZqA {\n        /* line one\n           line two */\n        int32 x;\n    }\n    2 -> message ZqB {\n        /* l1\n\tl2 \n  l3 */\n        1 -> int32 y;\n        [deprecated(\"two\nlines\")]\n        2 -> string z;\n    }\n}\n"},
 		{"multi-line-comment-in-struct", "struct ZqS {\n    /* a\n       b */\n    int32 x; /* c\n d */\n    string y;\n}\n"},
+		{"zero-padded-indices", "message ZpM {\n    001 -> int32 a;\n    007 -> int32 b;\n    009 -> int32 c;\n    010 -> int32 d;\n    064 -> int32 e;\n    100 -> int32 f;\n    0255 -> int32 g;\n}\nunion ZpU {\n    008 -> struct ZpA {\n        int32 x;\n    }\n    010 -> struct ZpB {\n        int32 y;\n    }\n    0077 -> message ZpC {\n        01 -> int32 z;\n        017 -> int32 w;\n    }\n}\n"},
 		{"field-then-block-then-line-comment", "struct ZqT {\n    int32 timeout; /* milliseconds */ // since v2\n    [deprecated(\"x\")] int32 old; // gone\n    string s; /* a */ /* b */\n}\n"},
 	} {
 		jobs = append(jobs, job{t.text, t.name, "as-is", "multi-line-token"})
+	}
+	// every keyword of the language in every position where an identifier is expected (whatever ReadFile accepts of these,
+	// Format has to keep), with ordinary neighbours before and after
+	for _, kw := range []string{"readonly", "message", "struct", "enum", "deprecated", "opcode", "map", "array", "union", "const", "inf", "nan", "true", "false", "import", "flags"} {
+		for _, t := range []struct{ pos, text string }{
+			{"enum-option", "enum ZkE {\n    text = 1;\n    " + kw + " = 2;\n    blob = 4;\n}\n"},
+			{"enum-option-deprecated", "enum ZkD : uint8 {\n    first = 1;\n    [deprecated(\"old\")]\n    " + kw + " = 2;\n    last = 3;\n}\n"},
+			{"flags-option", "[flags]\nenum ZkF {\n    a = 1;\n    " + kw + " = 2;\n    c = a | 4;\n}\n"},
+			{"struct-field-name", "struct ZkS {\n    int32 before;\n    int32 " + kw + ";\n    string after;\n}\n"},
+			{"message-field-name", "message ZkM {\n    1 -> int32 before;\n    2 -> string " + kw + ";\n    3 -> bool after;\n}\n"},
+			{"struct-field-type", "struct ZkT {\n    int32 before;\n    " + kw + " x;\n    string after;\n}\n"},
+			{"definition-name", "struct " + kw + " {\n    int32 x;\n}\nstruct ZkAfter {\n    int32 y;\n}\n"},
+			{"const-name", "const int32 " + kw + " = 3;\nconst int32 zkAfter = 4;\n"},
+			{"union-branch-name", "union ZkU {\n    1 -> struct " + kw + " {\n        int32 x;\n    }\n    2 -> struct ZkB {\n        int32 y;\n    }\n}\n"},
+		} {
+			jobs = append(jobs, job{t.text, "keyword-" + kw + "-as-" + t.pos, "as-is", "keyword-as-identifier"})
+		}
 	}
 	// files longer than a reader buffer, written compactly
 	for _, n := range []int{60, 120, 1200} {
